@@ -417,7 +417,7 @@ func c19Schemas() []func() *c19Schema {
 		},
 		func() *c19Schema {
 			s := &c19Schema{name: "String.Min(5).OneOf(list) and String.Min(5).Catch: failing runs whose issues are collected / swallowed"}
-			list := []string{"zeta-eta", "alpha-beta", "omega-psi", "gamma-delta", "kappa-iota", "beta-alpha", "theta-rho", "delta-gamma", "sigma-tau", "lambda-mu"} // ten entries, not in sorted order
+			list := []string{"zeta-eta", "alpha-beta", "omega-psi", "gamma-delta", "kappa-iota", "beta-alpha", "theta-rho", "delta-gamma", "sigma-tau", "lambda-mu", "brown-fox", "upsilon-chi", "aleph-null"} // thirteen entries, not in sorted order (long enough for anything that abbreviates, sorts or indexes long lists)
 			prm := map[string]any{"custom": "param"}
 			own(&s.owned, "OneOf list", list)
 			own(&s.owned, "Params option map", prm)
